@@ -22,6 +22,8 @@ P = "partitura.performance"
 
 
 def run(ctx):
+    from ..rules import generic as _G11
+    _G11.rule_F11(ctx, ['partitura.performance'], 'C14')
     w = world(ctx)
     prog = ctx.prog
     # ---- MUSTCALL
